@@ -170,13 +170,39 @@ func c02Eval(c *Ctx, cs Case) {
 						copy(m[i:], nd)
 						all(m, "digest-rewrite")
 					}
+					// the same, together with one unsigned edit of the blob: no field outside the
+					// signed attributes may switch the content binding off
+					if j := bytes.LastIndex(sig, od); j >= 0 && (c.Thorough || cs.S("path") != "" || c.Rng.Intn(3) == 0) {
+						sig2 := append([]byte{}, sig...)
+						copy(sig2[j:], nd)
+						seed2 := p7Seed{name: "image-signature-rewritten", blob: sig2, right: right, twin: twin, other: stranger}
+						k := 0
+						forgeries(c, seed2, func(class string, b []byte) {
+							k++
+							if strings.HasPrefix(class, "oid-swap") && strings.Contains(class, "+forge-content") {
+								return
+							}
+							if strings.HasPrefix(class, "oid-swap") && !c.Thorough && k%3 != 0 && !strings.HasSuffix(class, "sha384") {
+								return
+							}
+							c02Pair(c, cs, withTable(m, winCert(b)), right, "digest-rewrite+"+class, "right")
+						})
+					}
 				}
 			}
 		}
 	}
 	// 4. structural / targeted edits inside the blob (content, content type, certificates, signer identity, attributes)
 	seed := p7Seed{name: "image-signature", blob: sig, right: right, twin: twin, other: stranger}
+	nf := 0
 	forgeries(c, seed, func(class string, b []byte) {
+		if strings.HasPrefix(class, "oid-swap") { // C04 runs all of these on the blob itself
+			nf++
+			if c.Thorough || nf%5 == 0 {
+				c02Pair(c, cs, withTable(signed, winCert(b)), right, "blob-"+class, "right")
+			}
+			return
+		}
 		all(withTable(signed, winCert(b)), "blob-"+class)
 	})
 	n := 0
@@ -208,7 +234,7 @@ func c02Gen(c *Ctx) {
 
 func init() {
 	register("C02", &PropDef{
-		Rule:   "images from the C01 generator and two repository binaries, signed by the library; for each, Verify under the signer's certificate, a twin certificate (same issuer and serial, another key) and a stranger, on: the signed image, the unsigned image, ~25 stratified single-byte changes (+8 inside the certificate table), a cross-image transplant of the certificate table, a covered-byte change with the embedded digest overwritten by the new image digest, targeted edits inside the blob (content, content type, certificates, signer identity, message digest, dropped attributes), a sample of generic blob mutations, and two-signature tables in both orders. Every pair is compared with the Lean Impl verifier (real SHA-256/RSA) and judged by Spec.authenticodeVerify. Every case is non-trivial; distinct = distinct (image bytes, certificate).",
+		Rule:   "images from the C01 generator and two repository binaries, signed by the library; for each, Verify under the signer's certificate, a twin certificate (same issuer and serial, another key) and a stranger, on: the signed image, the unsigned image, ~25 stratified single-byte changes (+8 inside the certificate table), a cross-image transplant of the certificate table, a covered-byte change with the embedded digest overwritten by the new image digest (alone, and combined with each targeted blob edit and OID replacement), targeted edits inside the blob (content, content type, certificates, signer identity, message digest, dropped attributes), a sample of generic blob mutations, and two-signature tables in both orders. Every pair is compared with the Lean Impl verifier (real SHA-256/RSA) and judged by Spec.authenticodeVerify. Every case is non-trivial; distinct = distinct (image bytes, certificate).",
 		Assume: []string{"RSA/SHA-256 on the model side are the executable Lean implementations", "x509.ParseCertificates is opaque (its verdicts are handed to the model)"},
 		Eval:   c02Eval, Gen: c02Gen,
 	})
